@@ -92,25 +92,8 @@ def _evaluate_case(grammar, text, formula, oracle_formula, features, solver, sol
         strategy.append("legacy")
     if after.get("eliminate_quantifiers", 0) > before.get("eliminate_quantifiers", 0):
         strategy.append("qe")
-    transient = []
-    if ev == "U":
-        # is_valid() gives Z3 500 ms of wall-clock time; on a loaded machine that expires spuriously.
-        # UNKNOWN counts only if it persists over two more attempts.
-        for _ in range(2):
-            again = H.call_evaluate(formula if formula is not None else text, tree, grammar, watchdog_s)
-            if again != "U":
-                transient.append(f"evaluate: UNKNOWN, then {again} on retry")
-                ev = again
-                break
     if solver is not None:
         ck = H.call_check(solver, tree, watchdog_s)
-        if ck == "U":
-            for _ in range(2):
-                again = H.call_check(solver, tree, watchdog_s)
-                if again != "U":
-                    transient.append(f"check: UnknownResultError, then {again} on retry")
-                    ck = again
-                    break
     else:
         ck = solver_error
     if oracle_formula is None:
@@ -122,7 +105,7 @@ def _evaluate_case(grammar, text, formula, oracle_formula, features, solver, sol
             raise
         except BaseException as exc:  # noqa: BLE001
             oracle = dict(verdicts=[], exact=False, error=f"oracle crashed: {type(exc).__name__}: {exc}", readings=0)
-    return dict(ev=ev, ck=ck, oracle=oracle, strategy="+".join(strategy) or "none", transient=transient)
+    return dict(ev=ev, ck=ck, oracle=oracle, strategy="+".join(strategy) or "none")
 
 
 def _prepare(grammar, text, raw, oracle_text, watchdog_s):
@@ -226,8 +209,9 @@ def judge(task: Dict[str, Any], case: Dict[str, Any], tree_cls: str) -> Tuple[st
     numeric = task["variant"] != "plain"
     strategy = "qe" if numeric else "legacy"
     problems: List[Tuple[str, str]] = []
-    if ev == "TO" or ck == "TO":
-        return "inconclusive", [("watchdog", f"evaluate={ev} check={ck}")]
+    if ev in ("TO", "ZU") or ck in ("TO", "ZU"):
+        return "inconclusive", [("watchdog-or-z3-unknown", f"evaluate={ev} check={ck} (TO = watchdog, ZU = UNKNOWN "
+                                 f"while Z3 answered unknown inside ISLa's is_valid, 3 attempts)")]
     expected: Optional[str] = None
     status = "ok"
     if oracle["error"]:
@@ -331,9 +315,6 @@ def run(rep, tier: str, seed: int) -> None:
                 n_samples += 1
             rep.case(key=key, nontrivial=(status in ("ok", "violation")), sample=sample)
             fam["cases"] += 1
-            for note in case.get("transient", []):
-                rep.note_inconclusive(f"{name}: {task['text']} on tree #{case['tree']}: transient Z3 timeout inside "
-                                      f"is_valid (500 ms): {note}")
             for s in case["strategy"].split("+"):
                 if s in strategy_cases:
                     strategy_cases[s] += 1
